@@ -45,9 +45,9 @@ def cases(tier):
                     if p == 3 and q and sum(w[1] for w in ws) > 6:
                         continue
                     yield {'k': 'gen', 'd': d, 'd2': d2, 'ws': [list(w) for w in ws]}
-    for d in (1, 2):
+    for d in ((1, 2) if q else (1, 2, 3)):
         for d2 in (1, 2, 3):
-            for m in (4, 6, 9):
+            for m in ((4, 6, 9) if q else (4, 6, 9, 12)):
                 for ws in ([(0, 2), (2, 2)], [(1, 2), (3, 3)], [(0, 2), (2, 2), (4, 2)]):
                     for bg in (True, False):
                         for rw in (False, True):
